@@ -373,3 +373,11 @@ func IsExit(b *ssa.BasicBlock) bool {
 	}
 	return false
 }
+
+// Deref2 strips exactly one pointer level.
+func Deref2(t types.Type) types.Type {
+	if p, ok := t.Underlying().(*types.Pointer); ok {
+		return p.Elem()
+	}
+	return t
+}
